@@ -849,12 +849,10 @@ public:
         operator+=(IntegerType y)
     {
         if ( is_negative() != (y < 0))
-            return *this -= -y;
+            return *this -= -basic_bigint<Allocator>(y);
 
-        if (y < 0)
-        {
-            y = -y;
-        }
+        // magnitude in the unsigned domain, -y is undefined for the most negative value
+        const word_type w = y < 0 ? (word_type(0) - static_cast<word_type>(y)) : static_cast<word_type>(y);
 
         word_type d;
         word_type carry = 0;
@@ -869,7 +867,7 @@ public:
         {
             d = this_view[i] + carry;
             carry = d < carry;
-            this_view[i] = d + y;
+            this_view[i] = d + w;
             if (this_view[i] < d)
                 carry = 1;
         }
@@ -986,7 +984,7 @@ public:
     typename std::enable_if<ext_traits::is_signed_integer<IntegerType>::value, basic_bigint<Allocator>&>::type
     operator*=(IntegerType y)
     {
-        *this *= word_type(y < 0 ? -y : y);
+        *this *= (y < 0 ? (word_type(0) - static_cast<word_type>(y)) : static_cast<word_type>(y));
         if ( y < 0 )
             set_negative(!is_negative());
         return *this;
